@@ -244,7 +244,7 @@ static int run_sweep(const std::string &dir, int shard, int nshards, int level, 
       const std::string errpath = std::string(getenv("VERIF_RECORDS") ? getenv("VERIF_RECORDS") : "/dev/null") + ".stderr";
       const pid_t pid = fork();
       if (pid == 0) {
-        if (getenv("VERIF_RECORDS")) { FILE *ef = freopen(errpath.c_str(), "w", stderr); (void)ef; }
+        if (getenv("VERIF_RECORDS")) { FILE *ef = freopen(errpath.c_str(), "w", stderr); (void)ef; setvbuf(stderr, nullptr, _IONBF, 0); }
         for (long i = start; i < (long)fs.size(); ++i) {
           g_sh->idx = i;
           alarm(20);
@@ -409,7 +409,7 @@ static int run_hostile(const std::string &rowsfile, int shard, int nshards) {
     g_sh->idx = start;
     const pid_t pid = fork();
     if (pid == 0) {
-      if (getenv("VERIF_RECORDS")) { FILE *ef = freopen(errpath.c_str(), "w", stderr); (void)ef; }
+      if (getenv("VERIF_RECORDS")) { FILE *ef = freopen(errpath.c_str(), "w", stderr); (void)ef; setvbuf(stderr, nullptr, _IONBF, 0); }
       for (long i = start; i < (long)lines.size(); ++i) {
         g_sh->idx = i;
         alarm(20);
@@ -471,7 +471,7 @@ static int run_nest(const std::string &stream) {
     const std::vector<char> bytes = with_nesting(b, depth);
     const pid_t pid = fork();
     if (pid == 0) {
-      if (getenv("VERIF_RECORDS")) { FILE *ef = freopen(errpath.c_str(), "w", stderr); (void)ef; }
+      if (getenv("VERIF_RECORDS")) { FILE *ef = freopen(errpath.c_str(), "w", stderr); (void)ef; setvbuf(stderr, nullptr, _IONBF, 0); }
       alarm(60);
       int rc = 41;
       {
